@@ -117,6 +117,9 @@ type c16Env struct {
 
 var c16E *c16Env
 
+// c16DebugDump, when set (debugging only), renders the stored entries of a key for failure messages.
+var c16DebugDump func(s *c16Sw, key string) string
+
 func c16WithRig(f func()) {
 	c16E = &c16Env{r: rig.New(rig.Options{Patterns: c16Patterns()})}
 	c16E.roots = []string{c16E.r.Root}
@@ -793,6 +796,9 @@ func (s *c16Sw) judge(final map[string]string) pbt.Outcome {
 			if present {
 				now = fmt.Sprintf("the key holds %q", v)
 			}
+			if c16DebugDump != nil {
+				now += "; file: " + c16DebugDump(s, k)
+			}
 			return pbt.Failf("lost-write", "swamp %s (%s): acknowledged %s of key %q = %q [%d,%d] is gone after re-open (%s) and no write/delete/shift of the key or destroy of the swamp was running or issued afterwards (history: %s)",
 				s.name, cfg, w.what, k, w.val, w.call, w.ret, now, s.hist(k))
 		}
@@ -932,7 +938,11 @@ func runC16(s C16Scenario) pbt.Outcome {
 			classes[c] = true
 		}
 		if sw.unjudgeable != "" {
-			classes["unjudgeable-swamp:"+strings.SplitN(sw.unjudgeable, " (", 2)[0]] = true
+			if strings.HasPrefix(sw.unjudgeable, "a request took") {
+				classes["unjudgeable-swamp:request-stalled-over-700ms"] = true
+			} else {
+				classes["unjudgeable-swamp:"+sw.unjudgeable] = true
+			}
 			continue
 		}
 		if o := sw.judge(final); o.Fail != "" {
